@@ -83,6 +83,7 @@ def run(ctx):
     part = ones.copy()
     part[::2, 1::3] = 0
     rho0, theta0 = rho.copy(), theta.copy()
+    sine_negated = []
     for j in range(1, JMAX + 1):
         n, m, nsq = table[j - 1]
         rad = np.array([float(sp.rf(x)) for x in exp[1]['vals'][j - 1]])
@@ -94,9 +95,13 @@ def run(ctx):
             z = np.asarray(lentil.zernike(ones, j, normalize=normalize, rho=rho, theta=theta), dtype=float)
             ctx.case(('value', j, normalize))
             ok = np.allclose(z, e, rtol=0, atol=1e-9 * (1 + np.abs(e).max())) and np.allclose(zp, e * part, rtol=0, atol=1e-9 * (1 + np.abs(e).max()))
-            if not ok and m < 0:
-                ok = np.allclose(z, -e, rtol=0, atol=1e-9 * (1 + np.abs(e).max())) and \
-                    np.allclose(zp, -e * part, rtol=0, atol=1e-9 * (1 + np.abs(e).max()))       # sign of the sine modes is an open convention
+            if not ok and m < 0 and np.allclose(z, -e, rtol=0, atol=1e-9 * (1 + np.abs(e).max())) and \
+                    np.allclose(zp, -e * part, rtol=0, atol=1e-9 * (1 + np.abs(e).max())):
+                # exactly MINUS the textbook mode R(rho) sin(|m| theta): reported once per run under its own signature
+                if not sine_negated:
+                    sine_negated.append(j)
+                    ctx.violation({'kind': 'sine-modes-negated'}, {'first_j': j, 'n_m': [n, m], 'note': 'every odd-j mode with m != 0 equals minus R_n^m(rho) sin(|m| theta) at caller-supplied coordinates'}, case=None)
+                continue
             if not ok:
                 ctx.violation({'kind': 'mode-value', 'j': j if j <= 15 else 'high', 'n': n, 'normalize': normalize},
                               {'j': j, 'n_m': [n, m], 'max_abs_error': float(np.abs(np.abs(z) - np.abs(e)).max())}, case=None)
@@ -104,6 +109,28 @@ def run(ctx):
                 ctx.violation({'kind': 'unnormalised-exceeds-1', 'n': n}, {'j': j, 'max': float(np.abs(z).max())}, case=None)
     if not (np.array_equal(rho, rho0) and np.array_equal(theta, theta0)):
         ctx.violation({'kind': 'caller-coordinates-modified'}, {}, case=None)
+    # ---- 2b. high orders (numeric leaf: the exact value comes from Python rationals, TLC's 32-bit integers stop near n = 12) ------------
+    # the radial polynomial is 1 at rho = 1 and bounded by 1 for EVERY order; an alternating power series loses this near n = 40
+    from fractions import Fraction as Fr
+
+    def radial_exact(n, m, x):
+        m = abs(m)
+        return float(sum(Fr((-1) ** k * math.factorial(n - k), math.factorial(k) * math.factorial((n + m) // 2 - k) * math.factorial((n - m) // 2 - k)) * Fr(x) ** (n - 2 * k)
+                         for k in range((n - m) // 2 + 1)))
+    xs = [Fr(1, 3), Fr(9, 10), Fr(99, 100), Fr(1)]
+    rho_h = np.array([[float(x) for x in xs]])
+    for n_h in (20, 30, 40, 50, 60):
+        j_h = n_h * (n_h + 1) // 2 + 1                      # Noll index of the m = 0 mode of even order n
+        nn, mm = zmod.zernike_index(j_h)[::-1]
+        ctx.case(('high-order', n_h))
+        if (int(nn), int(mm)) != (n_h, 0):
+            ctx.violation({'kind': 'noll-index', 'j': 'high'}, {'j': j_h, 'expected_n_m': [n_h, 0], 'observed_n_m': [int(nn), int(mm)]}, case=None)
+            continue
+        zh = np.asarray(lentil.zernike(np.ones((1, 4)), j_h, normalize=False, rho=rho_h, theta=np.zeros((1, 4))), dtype=float)[0]
+        eh = np.array([radial_exact(n_h, 0, x) for x in xs])
+        if not np.allclose(zh, eh, rtol=0, atol=1e-9) or abs(zh[-1] - 1) > 1e-9 or np.abs(zh).max() > 1 + 1e-9:
+            ctx.violation({'kind': 'high-order-radial-polynomial', 'n': n_h},
+                          {'j': j_h, 'rho': [float(x) for x in xs], 'expected': eh, 'observed': zh}, case=None)
     # ---- 3. orthonormality over the unit disk by exact quadrature (numeric leaf) -----------------------------------------------
     gl_x, gl_w = np.polynomial.legendre.leggauss(20)
     r_nodes = 0.5 * (gl_x + 1)
